@@ -264,7 +264,7 @@ class C16(Prop):
         "jukesCantorMx_spec", "avgConnectivity_spec", "avgSubsetConnectivity_is",
         "quicksort_sorts", "quicksort_decreasing_weights", "idFilterAdv_keeps_preferred", "idFilterAdv_conscover", "idFilterAdv_random",
         "idFilterAdv_origorder", "consensus_by_all_selects", "consensus_by_rf_selects", "consensus_by_sample_selects",
-        "pbAdv_consensus_cascade", "average_sampling_in_bounds", "average_all_empty", "linkage_additive_ultrametric", "idFilterAdv_consensus_cascade", "linkage_cladesizes_root", "fragment_rule_documented", "pairId_text_digital_agree", "pairId_text_digital_agree_dna", "msaSingleLinkage_one_cluster_at_zero", "idFilterText_keeps_first_at_zero", "blosum_all_one_at_zero")]
+        "pbAdv_consensus_cascade", "average_sampling_in_bounds", "average_all_empty", "linkage_additive_ultrametric", "idFilterAdv_consensus_cascade", "linkage_cladesizes_root", "fragment_rule_documented", "pairId_text_digital_agree", "pairId_text_digital_agree_dna", "msaSingleLinkage_one_cluster_at_zero", "idFilterText_keeps_first_at_zero", "blosum_all_one_at_zero", "idFilterDigital_keeps_top_at_zero")]
     claimed = True
     technique = ("Lean 4 proof over the exact (Q) instance of a numeric-class-polymorphic executable model of esl_distance/esl_cluster/"
                  "esl_msacluster/esl_quicksort/esl_msaweight/esl_tree(UPGMA) + bit-exact differential correspondence of the Float instance "
@@ -321,6 +321,11 @@ class C16(Prop):
                    "not covered in the anchored files: esl_tree.c beyond cluster_engine (4 modes)/SetTaxaParents/SetCladesizes/Validate (Newick I/O, "
                    "RenumberNodes, Simulate, ToDistanceMatrix, Compare), benchmark/stats drivers",
                    "esl_dst_XAvgSubsetConnectivity: every V[i] < N (the C code only asserts it at debug level)",
+                   "unaligned input (sequences of different length) is driven through every matrix / averaging routine (op ragged: status, NULL "
+                   "outputs) EXCEPT esl_dst_{C,X}Average{Id,Match} in their sampling branch: they `return status` out of the loop, leaving the "
+                   "output untouched and leaking the generator (documented: output 0; fix proposed: /var/tmp/fixes-proposed/C16-average-error-paths.*)",
+                   "the FORM of the consensus test (gap fraction < symfrac, as coded, vs residue fraction >= symfrac, as documented) is read "
+                   "from the working tree each run (Weights/SymfracRule.lean); the theorems hold for any rule predicate; the binary32 evaluation is the driver's",
                    "cluster_engine: theorems over Q for every finite matrix; +inf entries ('unlinked' in linkage trees) are compared "
                    "bit-exactly in the single/complete modes but are outside the Q theorems",
                    "esl_msa_SequenceSubset is exercised (rows of the filtered MSA compared with the originals) but not modelled",
@@ -332,7 +337,9 @@ class C16(Prop):
             "and non-residue symbols, +-RF) x ops (pairid, pairmatch, jc, avgid / avgmatch with max_comparisons around the exhaustive/sampling boundary, pairidmx, slink, blosum, pb, pbadv, gsc, idfilter, idfilteradv) with thresholds "
             "including attained identities +-1ulp, followed by the same ops on a row-permuted copy; alignments with residue-free rows (all-gap / all-missing / non-residue symbols only, first / middle / last / several / only) "
             "and degenerate-only rows x EVERY op in text and digital mode incl. jcmx, avgconn, avgsub; explicit-graph clustering; quicksort; esl_rand64_Deal; esl_tree_{UPGMA,WPGMA,SingleLinkage,CompleteLinkage} on explicit matrices "
-            "(ties, zeros, ultrametric, negative entries, +inf = unlinked), whole ESL_TREE compared; "
+            "(ties, zeros, ultrametric, negative entries, +inf = unlinked), whole ESL_TREE compared; optional-output call modes (opt= masks: any subset of the "
+            "optional results requested), ESL_MSAWEIGHT_DAT reused across configurations, all its diagnostic fields compared, thresholds outside [0,1] and NaN, "
+            "sequences of unequal length through the matrix / averaging routines (op ragged); "
             "free-standing PairId incl. unaligned. non-trivial = at least 3 successful computing ops; distinct by output trace")
     diverge_is_violation = True    # every op is a deterministic function of the alignment that the model specifies bit-exactly
     quick_budget_s = 90
@@ -504,6 +511,7 @@ class C16(Prop):
         if mode != "text":
             ops.append("pbadv " + self.cfg_args(rng, n))
             if rng.random() < 0.3: ops.append("pbadv " + self.cfg_args(rng, n))
+            if rng.random() < 0.3: ops.append("pbadv %s reuse=%d" % (self.cfg_args(rng, n), rng.choice([1, 2, 3])))   # ESL_MSAWEIGHT_DAT reused
         if not big or rng.random() < 0.3: ops.append("gsc")
         ops.append("idfilter maxid=" + dbits(th[2]))
         if mode != "text":
@@ -696,6 +704,17 @@ class C16(Prop):
             ops.append("pairstr a=%s b=%s" % (bytes(a).hex() or "-", bytes(b).hex() or "-"))
             if rng.random() < 0.7:
                 ops.append("distpair a=%s b=%s%s" % (bytes(a).hex() or "-", bytes(b).hex() or "-", "" if mode != "text" else " k=%d" % rng.choice([4, 20, 2, 26])))
+        for _ in range(rng.randrange(1, 3)):
+            # the matrix / averaging routines on N sequences of which one (first / middle / last / none / several) has another length
+            n = rng.choice([1, 2, 3, 4, 5, 6])
+            L = rng.choice([0, 1, 3, 8, rng.randrange(0, 20)])
+            seqs = [[rng.choice(res + gaps[:1]) for _ in range(L)] for _ in range(n)]
+            for k in rng.sample(range(n), rng.choice([0, 1, 1, 1, 2]) if n > 1 else 0):
+                seqs[k] = [rng.choice(res) for _ in range(rng.choice([0, L + 1, max(0, L - 1), rng.randrange(0, 25)]))]
+            half = n * n // 2
+            mx = max(1, rng.choice([1, 2, n, half - 1, half, half + 1, 10, 1000]))
+            ops.append("ragged seqs=%s max=%d%s th=%s" % (",".join(bytes(q).hex() or "-" for q in seqs), mx,
+                       "" if mode != "text" else " k=%d" % rng.choice([4, 20]), dbits(rng.choice([0.0, 0.5, 0.25, 1.0]))))
         return {"name": name, "ops": ops, "sticky": 1}
 
     def corpus(self, ctx):
@@ -933,6 +952,10 @@ class C16(Prop):
                 r_ = self._check_distpair(aln, a, b, K, parts, int(kv.get("opt", 7 if w[0] != "jc" else 3)) if w[0] != "distpair" else None)
                 if r_: return Failure("monitor", r_)
                 cnt(w[0]); continue
+            if w[0] == "ragged":
+                r_ = self._check_ragged(aln, kv, l)
+                if r_: return Failure("monitor", "unaligned input: " + r_)
+                cnt("ragged"); continue
             if w[0] in ("avgconn", "avgsub"):
                 V = list(range(len(rows))) if w[0] == "avgconn" else ([int(x) for x in kv["v"].split(",")] if kv["v"] != "-" else [])
                 r_ = self._check_conn(aln, V, int(kv["max"]), undbits(kv["th"]), l)
@@ -1167,6 +1190,48 @@ class C16(Prop):
             if not (close(d, ed, 1e-9) and close(v, ev, 1e-9)) or d < 0 or v < 0:
                 return "JukesCantor(n1=%d,n2=%d,K=%d) = %r, %r; formula gives %r, %r" % (n1, n2, K, d, v, ed, ev)
             if n2 == 0 and not (d == 0.0 and v == 0.0): return "JukesCantor of sequences without substitutions is %r, %r" % (d, v)
+        return None
+
+    def _check_ragged(self, aln, kv, l):
+        """documented error behaviour: eslEINVAL (outputs NULL / 0) as soon as a pair the routine LOOKS AT differs in length; else the value"""
+        seqs = [list(bytes.fromhex(t)) if t != "-" else [] for t in kv["seqs"].split(",")]
+        n, maxc, th = len(seqs), int(kv["max"]), undbits(kv["th"])
+        K = int(kv.get("k", 4)) if aln.mode == "text" else ABC[aln.mode][0]
+        f = dict(x.split("=", 1) for x in l.split()[1:] if "=" in x)
+        allp = [(i, j) for i in range(n) for j in range(i + 1, n)]
+        bad = lambda pairs: any(len(seqs[i]) != len(seqs[j]) for i, j in pairs)
+        e_mx = "einval" if bad(allp) else "ok"
+        if f["pidmx"] != e_mx or f["diffmx"] != e_mx: return "PairIdMx/DiffMx returned %s/%s, expected %s" % (f["pidmx"], f["diffmx"], e_mx)
+        e_jc = "ok"
+        for i, j in allp:
+            if len(seqs[i]) != len(seqs[j]): e_jc = "einval"; break
+            if sum(aln.jc_counts(seqs[i], seqs[j])) == 0: e_jc = "edivzero"; break
+        if f["jcmx"] != e_jc: return "JukesCantorMx returned %s, expected %s" % (f["jcmx"], e_jc)
+        import math
+        pairs, den = self._avg_pairs(n, maxc)
+        z = dbits(0.0)
+        sampling = n > 1 and not (n <= maxc and n <= math.sqrt(2.0 * maxc) and n * (n - 1) // 2 <= maxc)
+        skip = sampling and bad(allp)      # not driven: Average{Id,Match} leak their generator there (fix proposed)
+        if skip and (f["avgid"] != "skip" or f["avgmatch"] != "skip"): return "harness protocol: expected skip, got %s" % f["avgid"]
+        if pairs is not None and bad(pairs):
+            want = {"avgid": "einval:" + z, "avgmatch": "einval:" + z, "conn": "einval:%s:%s" % (z, z) if aln.mode != "text" else "-"}
+            for k_, v in want.items():
+                if skip and k_ != "conn": continue
+                if f[k_] != v: return "%s returned %s although a compared pair is not aligned (expected %s)" % (k_, f[k_], v)
+            return None
+        def mean(fn):
+            if pairs is None: return Fraction(1)
+            return sum(fn(seqs[i], seqs[j]) for i, j in pairs) / den
+        fid = lambda a, b: (lambda p: Fraction(p[0], p[1]) if p[1] else Fraction(0))(aln.pair(a, b))
+        fpm = lambda a, b: (lambda p: Fraction(p[0], p[1]) if p[1] else Fraction(0))(aln.pmatch(a, b))
+        for k_, fn in (("avgid", fid), ("avgmatch", fpm)):
+            if skip: continue
+            st, v = f[k_].split(":")
+            if st != "ok" or not close(undbits(v), float(mean(fn)), 1e-9): return "%s = %s, definition gives %r" % (k_, f[k_], float(mean(fn)))
+        if aln.mode != "text":
+            st, v, c = f["conn"].split(":")
+            ec = Fraction(1) if pairs is None else Fraction(sum(1 for i, j in pairs if aln.pid(seqs[i], seqs[j]) > th), den)
+            if st != "ok" or not close(undbits(v), float(mean(fid)), 1e-9) or not close(undbits(c), float(ec), 1e-12): return "connectivity = %s, definition gives %r, %r" % (f["conn"], float(mean(fid)), float(ec))
         return None
 
     def _avg_pairs(self, n, maxc):
